@@ -267,9 +267,9 @@ def execute(R, ctx):
             q = q2
             gen_ = None
             ctx.fault("pickle_restart")
-            if q.staging:
+            if getattr(q, "staging", None):
                 ctx.probe("restart_with_staged_packets")
-            if any(q.curr_level):
+            if any(getattr(q, "curr_level", ())):
                 ctx.probe("restart_mid_level")
             ctx.ev("restart")
         else:
